@@ -469,13 +469,143 @@ def helper_rules(chk, repo, mod):
            "exhausted (truncating zip / missing fill)", EF, vz.lineno,
            witness="⟨1|2|3⟩ ⟨10|20⟩ +  should give ⟨11|22|3⟩",
            sample={"fill handlers": len(fills), "until both exhausted": both})
-    # list and LazyList are one kind for vectorise
-    pt = repo.mod("helpers").function("primitive_type")
-    txt = ast.unparse(pt)
-    ok = "return list" in txt and "LazyList" in txt
-    chk.ob("C08.one-list-kind", "helpers.primitive_type", ok,
-           "primitive_type no longer maps both list and LazyList to `list`",
-           repo.mod("helpers").rel, pt.lineno, sample="list, LazyList -> list")
+    # scalars / numbers / the one list kind are recognised for every class
+    scalar_classification(chk, repo)
+
+
+# ---------------------------------------------------------------------------
+# sympy's numeric class tower (a fact about the library, not about the repo):
+# exact rationals are instances of Rational *subclasses* - 1/2 is Half, 0 is
+# Zero, 1 is One, -1 is NegativeOne, other integers are Integer.  A test by
+# exact type against sympy.Rational therefore misses most numbers.
+class _Basic:
+    pass
+
+
+class _Expr(_Basic):
+    pass
+
+
+class _Number(_Expr):
+    pass
+
+
+class _Rational(_Number):
+    pass
+
+
+class _Integer(_Rational):
+    pass
+
+
+class _Zero(_Integer):
+    pass
+
+
+class _One(_Integer):
+    pass
+
+
+class _NegativeOne(_Integer):
+    pass
+
+
+class _Half(_Rational):
+    pass
+
+
+class _Symbolic(_Expr):
+    """pi, sqrt(2), E ...: irrational results are sympy expressions"""
+
+
+TOWER = {"Basic": _Basic, "Expr": _Expr, "Number": _Number,
+         "Rational": _Rational, "Integer": _Integer}
+NUMBER_REPS = [("python int", 3), ("python int 0", 0),
+               ("sympy Rational (3/2)", _Rational()),
+               ("sympy Half (1/2)", _Half()),
+               ("sympy Integer", _Integer()), ("sympy Zero", _Zero()),
+               ("sympy One", _One()), ("sympy NegativeOne", _NegativeOne()),
+               ("sympy irrational expression", _Symbolic())]
+
+
+def scalar_classification(chk, repo):
+    """vectorise pairs a scalar with every item only if the scalar is
+    *recognised* as one.  primitive_type and vy_type depend on nothing but the
+    class of their argument, so interpreting them once per class of the
+    numeric tower decides them for every value."""
+    from ..pe import Interp, PRaise, StubModule, Unsupported
+    it = Interp(repo)
+    it.stubs["sympy"] = StubModule("sympy", dict(TOWER))
+    hp = it.module("vyxal.helpers")
+    el = it.module("vyxal.elements")
+    try:
+        prim = hp.get("primitive_type")
+        vt = el.get("vy_type")
+        SC = hp.get("SCALAR_TYPE")
+        NT = el.get("NUMBER_TYPE")
+        LL = it.module("vyxal.LazyList").get("LazyList")
+    except KeyError as exc:
+        raise AnalysisError(f"anchor vanished: {exc}") from None
+    lazy = it.instantiate(LL, [[1]], {})
+    HF = repo.mod("helpers").rel
+    EF = repo.mod("elements").rel
+
+    def run(fn, *args, **kw):
+        it.steps = 0
+        try:
+            return ("value", fn(*args, **kw))
+        except PRaise as exc:
+            return ("raised", f"{exc.cls_name}{exc.pargs}")
+        except Unsupported as exc:
+            raise AnalysisError(
+                f"{fn.__name__} uses a construct the interpreter does not "
+                f"model: {exc}") from None
+
+    n = 0
+    cases = NUMBER_REPS + [("str", "ab"), ("empty str", "")]
+    for label, rep in cases:
+        n += 1
+        got = run(prim, rep)
+        chk.ob("C08.scalar-recognised", f"helpers.primitive_type({label})",
+               got == ("value", SC),
+               f"primitive_type gives {got[1]!r} ({got[0]}) for a {label}: "
+               "vectorise then does not pair it with every item of the other "
+               "argument (it has no row for this kind / asserts)", HF,
+               repo.mod("helpers").function("primitive_type").lineno,
+               witness="⟨1|2|3⟩ 1 2/ +   (a list plus one half)",
+               sample={"class": label})
+    for label, rep in (("list", [1, 2]), ("LazyList", lazy)):
+        n += 1
+        got = run(prim, rep)
+        chk.ob("C08.one-list-kind", f"helpers.primitive_type({label})",
+               got == ("value", list),
+               f"primitive_type gives {got[1]!r} for a {label}: eager and "
+               "lazy lists must be the one kind `list` for vectorise", HF,
+               repo.mod("helpers").function("primitive_type").lineno,
+               sample={"class": label})
+    for label, rep in NUMBER_REPS:
+        for simple in (False, True):
+            n += 1
+            got = run(vt, rep, simple=simple)
+            chk.ob("C08.number-recognised",
+                   f"elements.vy_type({label})", got == ("value", NT),
+                   f"vy_type gives {got[1]!r} ({got[0]}) for a {label}: the "
+                   "overload tables are keyed by NUMBER_TYPE, so this number "
+                   "takes the list fallback", EF,
+                   repo.mod("elements").function("vy_type").lineno,
+                   sample={"class": label} if not simple else None)
+    for label, rep, want, wants in (("str", "a", str, str),
+                                    ("list", [1], list, list),
+                                    ("LazyList", lazy, LL, list)):
+        for simple in (False, True):
+            n += 1
+            got = run(vt, rep, simple=simple)
+            w = wants if simple else want
+            chk.ob("C08.kind-recognised", f"elements.vy_type({label}, "
+                   f"simple={simple})", got == ("value", w),
+                   f"vy_type gives {got[1]!r} for a {label}", EF,
+                   repo.mod("elements").function("vy_type").lineno)
+    chk.unit("type-tower classifications (interpreted)", n)
 
 
 def row_ok(v, kinds, names):
